@@ -72,6 +72,8 @@ FIXED = [
  ("C20", "026d192", "an integer external used as a primary expression kept its compile-time value as a constant (`$a at ext` ignored redefinition)"),
  ("C17", "df85c75", "every prefix of a saved rule file ending inside the relocation table was loaded successfully"),
  ("C10", "elf-fix", "elf module leaked one ELF structure per extra memory block of a scan"),
+ ("C10", "e224a00", "scanner->last_error_string was never reset: a later unrelated failure on a reused scanner was attributed to the string of an earlier scan"),
+ ("C18", "cli-culprit-fix", "yara CLI printed `string \"$x\" in rule \"r\" caused could not open file` for an unreadable file after an earlier file on the same thread had hit a limit"),
 ]
 
 def main():
@@ -93,6 +95,8 @@ def main():
         c = commit
         if commit == "elf-fix":
             c = next((l.split()[0] for l in log if "elf module leaked" in l), commit)
+        if commit == "cli-culprit-fix":
+            c = next((l.split()[0] for l in log if "yara CLI blamed" in l), commit)
         entries.append({"id": "FX-%s-%s" % (prop, c), "property": prop, "status": "fixed", "commit": c, "what": what, "line": "fixed: property=%s %s %s" % (prop, c, what)})
     json.dump({"version": 1, "entries": entries}, open("/verif/known_findings.json", "w"), indent=1)
     print(len(entries), "entries written")
